@@ -9,7 +9,13 @@
 (* op.set_done(); callback() calls op.set_value()).                           *)
 (* Threads: 1 = S unifex::start(op); 2 = A invokes the safe callback twice    *)
 (* (the second call is certainly late); 3 = B request_stop().                 *)
-(* pc labels "h_*", "b_*", "spin_wait*" are schedule points.                  *)
+(* pc labels "h_*", "b_*", "spin_wait*" are schedule points.  Scenario field  *)
+(* lk = 1: the sender is built with the harness lock factory, which has a     *)
+(* schedule point (race.h_lock) in front of every lock acquisition; with      *)
+(* lk = 0 (default recursive mutex) the "h_lock_*" labels are internal        *)
+(* continuations.  Scenario field mut = 1 is a SPEC-LEVEL MUTATION used only  *)
+(* by CreateBasicSenderMut.cfg: the stop callback tests finished() before it  *)
+(* takes the lock and does not re-check under the lock.                       *)
 (***************************************************************************)
 EXTENDS Naturals, Sequences, FiniteSets, TLC
 CONSTANT Scenarios
@@ -21,14 +27,15 @@ VARIABLES scn,
           pend,        \* the completion stored in the receiver wrapper
           willComplete,\* per thread: its locked block returned completed = true
           acall,       \* which of A's two calls is in progress
+          hookBad,     \* the body's stop() ran for an operation whose completion was already accepted
           pc, cnt, compBy, bad, lastT, lastPc
-vars == <<scn, phase, holder, strong, opAlive, cbReg, cbRunBy, srcStopped, published, pend, willComplete, acall, pc, cnt, compBy, bad>>
+vars == <<scn, phase, holder, strong, opAlive, cbReg, cbRunBy, srcStopped, published, pend, willComplete, acall, hookBad, pc, cnt, compBy, bad>>
 ghosts == <<lastT, lastPc>>
 Thr == {1, 2, 3}
 Finished == phase \in {"stopped_early", "completed_normally"}
 Init == /\ scn \in Scenarios
         /\ phase = "starting" /\ holder = FALSE /\ strong = {} /\ opAlive = TRUE /\ cbReg = "none" /\ cbRunBy = 0
-        /\ srcStopped = FALSE /\ published = FALSE /\ pend = "" /\ willComplete = [t \in Thr |-> FALSE] /\ acall = 1
+        /\ srcStopped = FALSE /\ published = FALSE /\ pend = "" /\ willComplete = [t \in Thr |-> FALSE] /\ acall = 1 /\ hookBad = FALSE
         /\ pc = [t \in Thr |-> IF t = 1 THEN "h_s0" ELSE IF t = 2 THEN (IF scn.a = 1 THEN "h_a0" ELSE "done")
                                 ELSE (IF scn.b = 1 THEN "h_b0" ELSE "done")]
         /\ cnt = [nsb |-> 0, nstop |-> 0, bodycb |-> 0, compl |-> 0, lateRan |-> 0]
@@ -41,68 +48,84 @@ DoComplete(t) == /\ cbReg' = "gone" /\ opAlive' = FALSE /\ cnt' = [cnt EXCEPT !.
 
 \* ------------------------------------------------------------ S
 HS0 == /\ pc[1] = "h_s0"                      \* start_impl: stop_.construct(...): the callback runs inline if stop was requested
-       /\ IF srcStopped THEN /\ cbReg' = "inline" /\ phase' = "stopped_early" /\ pend' = "done"
-                        ELSE /\ cbReg' = "reg" /\ UNCHANGED <<phase, pend>>
-       /\ Go(1, "b_start")
-       /\ UNCHANGED <<scn, holder, strong, opAlive, cbRunBy, srcStopped, published, willComplete, acall, cnt, compBy, bad>>
-BStart == /\ pc[1] = "b_start" /\ Touch("start() locks a destroyed operation")   \* { lock; set_started; body.start; completed? }
+       /\ IF srcStopped THEN /\ cbReg' = "inline" /\ Go(1, "h_lock_i")
+                        ELSE /\ cbReg' = "reg" /\ Go(1, "b_start")
+       /\ UNCHANGED <<scn, phase, pend, holder, strong, opAlive, cbRunBy, srcStopped, published, willComplete, acall, hookBad, cnt, compBy, bad>>
+\* the inline stop callback's locked block (the operation has not started: set_done, start_impl completes)
+HLockI == /\ pc[1] = "h_lock_i" /\ phase' = "stopped_early" /\ pend' = "done" /\ Go(1, "b_start")
+          /\ UNCHANGED <<scn, holder, strong, opAlive, cbReg, cbRunBy, srcStopped, published, willComplete, acall, hookBad, cnt, compBy, bad>>
+BStart == /\ pc[1] = "b_start" /\ Go(1, "h_lock_s")
+          /\ UNCHANGED <<scn, phase, pend, holder, strong, opAlive, cbReg, cbRunBy, srcStopped, published, willComplete, acall, hookBad, cnt, compBy, bad>>
+HLockS == /\ pc[1] = "h_lock_s" /\ Touch("start() locks a destroyed operation")   \* { lock; set_started; body.start; completed? }
           /\ IF phase = "starting"
              THEN /\ phase' = "started" /\ published' = TRUE /\ holder' = TRUE /\ cnt' = [cnt EXCEPT !.nsb = @ + 1]
                   /\ UNCHANGED willComplete
              ELSE /\ UNCHANGED <<phase, published, cnt>> /\ holder' = FALSE        \* stopped before start: completed
                   /\ willComplete' = [willComplete EXCEPT ![1] = TRUE]
           /\ Go(1, "b_stcmp")
-          /\ UNCHANGED <<scn, strong, opAlive, cbReg, cbRunBy, srcStopped, pend, acall, compBy>>
+          /\ UNCHANGED <<scn, strong, opAlive, cbReg, cbRunBy, srcStopped, pend, acall, hookBad, compBy>>
 BStCmp == /\ pc[1] \in {"b_stcmp", "spin_wait_s"}
           /\ IF ~willComplete[1] THEN /\ pc[1] = "b_stcmp" /\ Go(1, "done") /\ UNCHANGED <<cbReg, opAlive, cnt, compBy, bad>>
              ELSE IF Blocked(1) THEN /\ pc[1] = "b_stcmp" /\ Go(1, "spin_wait_s") /\ UNCHANGED <<cbReg, opAlive, cnt, compBy, bad>>
              ELSE /\ Touch("start() completes a destroyed operation") /\ DoComplete(1) /\ Go(1, "done")
-          /\ UNCHANGED <<scn, phase, holder, strong, cbRunBy, srcStopped, published, pend, willComplete, acall>>
+          /\ UNCHANGED <<scn, hookBad, phase, holder, strong, cbRunBy, srcStopped, published, pend, willComplete, acall>>
 \* ------------------------------------------------------------ A: a safe callback
 HA0 == /\ pc[2] = "h_a0" /\ Go(2, IF ~published /\ cnt.compl = 0 THEN "h_await" ELSE IF published THEN "h_a1" ELSE "done")
-       /\ UNCHANGED <<scn, phase, holder, strong, opAlive, cbReg, cbRunBy, srcStopped, published, pend, willComplete, acall, cnt, compBy, bad>>
+       /\ UNCHANGED <<scn, hookBad, phase, holder, strong, opAlive, cbReg, cbRunBy, srcStopped, published, pend, willComplete, acall, cnt, compBy, bad>>
 HAwait == /\ pc[2] = "h_await" /\ (published \/ cnt.compl > 0) /\ Go(2, IF published THEN "h_a1" ELSE "done")
-          /\ UNCHANGED <<scn, phase, holder, strong, opAlive, cbReg, cbRunBy, srcStopped, published, pend, willComplete, acall, cnt, compBy, bad>>
+          /\ UNCHANGED <<scn, hookBad, phase, holder, strong, opAlive, cbReg, cbRunBy, srcStopped, published, pend, willComplete, acall, cnt, compBy, bad>>
 AfterCall == IF acall = 1 THEN "h_a2" ELSE "done"
 \* operator(): ptr = weak_.lock()
 HACall == /\ pc[2] = (IF acall = 1 THEN "h_a1" ELSE "h_a2")
           /\ IF holder THEN /\ strong' = strong \cup {2} /\ Go(2, "b_cb") /\ UNCHANGED acall
                        ELSE /\ UNCHANGED strong /\ Go(2, AfterCall) /\ acall' = 2      \* expired: no-op
-          /\ UNCHANGED <<scn, phase, holder, opAlive, cbReg, cbRunBy, srcStopped, published, pend, willComplete, cnt, compBy, bad>>
+          /\ UNCHANGED <<scn, hookBad, phase, holder, opAlive, cbReg, cbRunBy, srcStopped, published, pend, willComplete, cnt, compBy, bad>>
+BCb == /\ pc[2] = "b_cb" /\ Go(2, "h_lock_a")
+       /\ UNCHANGED <<scn, phase, pend, holder, strong, opAlive, cbReg, cbRunBy, srcStopped, published, willComplete, acall, hookBad, cnt, compBy, bad>>
 \* callback_impl: { lock; finished? ; body.callback -> set_value ; completed? }
-BCb == /\ pc[2] = "b_cb" /\ Touch("safe callback: callback_impl locks the mutex of a destroyed operation")
-       /\ IF Finished
-          THEN /\ strong' = strong \ {2} /\ Go(2, AfterCall) /\ acall' = 2
-               /\ UNCHANGED <<phase, pend, holder, willComplete, cnt>>
-          ELSE /\ phase' = "completed_normally" /\ pend' = "value" /\ holder' = FALSE
-               /\ willComplete' = [willComplete EXCEPT ![2] = TRUE]
-               /\ cnt' = [cnt EXCEPT !.bodycb = @ + 1, !.lateRan = IF cnt.compl > 0 THEN @ + 1 ELSE @]
-               /\ Go(2, "b_cmp") /\ UNCHANGED <<strong, acall>>
-       /\ UNCHANGED <<scn, opAlive, cbReg, cbRunBy, srcStopped, published, compBy>>
+HLockA == /\ pc[2] = "h_lock_a" /\ Touch("safe callback: callback_impl locks the mutex of a destroyed operation")
+          /\ IF Finished
+             THEN /\ strong' = strong \ {2} /\ Go(2, AfterCall) /\ acall' = 2
+                  /\ UNCHANGED <<phase, pend, holder, willComplete, cnt>>
+             ELSE /\ phase' = "completed_normally" /\ pend' = "value" /\ holder' = FALSE
+                  /\ willComplete' = [willComplete EXCEPT ![2] = TRUE]
+                  /\ cnt' = [cnt EXCEPT !.bodycb = @ + 1, !.lateRan = IF cnt.compl > 0 THEN @ + 1 ELSE @]
+                  /\ Go(2, "b_cmp") /\ UNCHANGED <<strong, acall>>
+          /\ UNCHANGED <<scn, opAlive, cbReg, cbRunBy, srcStopped, published, hookBad, compBy>>
 BCmp == /\ pc[2] \in {"b_cmp", "spin_wait_a"}
         /\ IF Blocked(2) THEN /\ pc[2] = "b_cmp" /\ Go(2, "spin_wait_a") /\ UNCHANGED <<cbReg, opAlive, cnt, compBy, bad, strong, acall>>
            ELSE /\ Touch("safe callback completes a destroyed operation") /\ DoComplete(2)
                 /\ strong' = strong \ {2} /\ Go(2, AfterCall) /\ acall' = 2
-        /\ UNCHANGED <<scn, phase, holder, cbRunBy, srcStopped, published, pend, willComplete>>
+        /\ UNCHANGED <<scn, hookBad, phase, holder, cbRunBy, srcStopped, published, pend, willComplete>>
 \* ------------------------------------------------------------ B: request_stop() -> _stop_callback
 HB0 == /\ pc[3] = "h_b0" /\ srcStopped' = TRUE
-       /\ IF cbReg = "reg" /\ cbRunBy = 0
-          THEN /\ Touch("stop callback locks a destroyed operation")
-               /\ IF Finished THEN /\ Go(3, "done") /\ UNCHANGED <<cbRunBy, phase, pend, holder, willComplete, cnt>>
-                  ELSE IF phase = "starting"
-                  THEN /\ phase' = "stopped_early" /\ pend' = "done" /\ Go(3, "done")
-                       /\ UNCHANGED <<cbRunBy, holder, willComplete, cnt>>
-                  ELSE /\ phase' = "completed_normally" /\ pend' = "done" /\ holder' = FALSE /\ cbRunBy' = 3
-                       /\ willComplete' = [willComplete EXCEPT ![3] = TRUE] /\ cnt' = [cnt EXCEPT !.nstop = @ + 1]
-                       /\ Go(3, "b_scmp")
-          ELSE /\ Go(3, "done") /\ UNCHANGED <<cbRunBy, phase, pend, holder, willComplete, cnt, bad>>
-       /\ UNCHANGED <<scn, strong, opAlive, cbReg, published, acall, compBy>>
+       /\ IF cbReg = "reg" /\ cbRunBy = 0 /\ ~(scn.mut = 1 /\ Finished)       \* mut: unlocked finished() fast path
+          THEN /\ cbRunBy' = 3 /\ Go(3, "h_lock_b")
+          ELSE /\ Go(3, "done") /\ UNCHANGED cbRunBy
+       /\ UNCHANGED <<scn, phase, pend, holder, willComplete, cnt, bad, strong, opAlive, cbReg, published, acall, hookBad, compBy>>
+\* _stop_callback: { lock; finished? return; not_started? set_done, return; body.stop -> set_done; completed? }
+HLockB == /\ pc[3] = "h_lock_b" /\ Touch("stop callback locks a destroyed operation")
+          /\ IF Finished /\ scn.mut = 0
+             THEN /\ cbRunBy' = 0 /\ Go(3, "done") /\ UNCHANGED <<phase, pend, holder, willComplete, cnt, hookBad>>
+             ELSE IF phase = "starting"
+             THEN /\ phase' = "stopped_early" /\ pend' = "done" /\ cbRunBy' = 0 /\ Go(3, "done")
+                  /\ UNCHANGED <<holder, willComplete, cnt, hookBad>>
+             ELSE /\ hookBad' = (hookBad \/ Finished)
+                  /\ phase' = (IF Finished THEN phase ELSE "completed_normally")
+                  /\ pend' = (IF Finished THEN pend ELSE "done") /\ holder' = FALSE
+                  /\ willComplete' = [willComplete EXCEPT ![3] = TRUE] /\ cnt' = [cnt EXCEPT !.nstop = @ + 1]
+                  /\ UNCHANGED cbRunBy /\ Go(3, "b_scmp")
+          /\ UNCHANGED <<scn, strong, opAlive, cbReg, srcStopped, published, acall, compBy>>
 BSCmp == /\ pc[3] = "b_scmp" /\ Touch("stop callback completes a destroyed operation") /\ DoComplete(3)
          /\ cbRunBy' = 0 /\ Go(3, "done")
-         /\ UNCHANGED <<scn, phase, holder, strong, srcStopped, published, pend, willComplete, acall>>
-Step(t) == \/ (t = 1 /\ (HS0 \/ BStart \/ BStCmp)) \/ (t = 2 /\ (HA0 \/ HAwait \/ HACall \/ BCb \/ BCmp)) \/ (t = 3 /\ (HB0 \/ BSCmp))
-PcOf(t) == IF pc[t] \in {"spin_wait_s", "spin_wait_a"} THEN "spin_wait" ELSE pc[t]
-Sched(t) == bad = "ok"
+         /\ UNCHANGED <<scn, hookBad, phase, holder, strong, srcStopped, published, pend, willComplete, acall>>
+Step(t) == \/ (t = 1 /\ (HS0 \/ HLockI \/ BStart \/ HLockS \/ BStCmp))
+           \/ (t = 2 /\ (HA0 \/ HAwait \/ HACall \/ BCb \/ HLockA \/ BCmp)) \/ (t = 3 /\ (HB0 \/ HLockB \/ BSCmp))
+LockLabel(l) == l \in {"h_lock_i", "h_lock_s", "h_lock_a", "h_lock_b"}
+Internal(t) == scn.lk = 0 /\ LockLabel(pc[t])
+PcOf(t) == IF pc[t] \in {"spin_wait_s", "spin_wait_a"} THEN "spin_wait"
+           ELSE IF LockLabel(pc[t]) THEN (IF scn.lk = 0 THEN "" ELSE "h_lock") ELSE pc[t]
+Sched(t) == bad = "ok" /\ (\A u \in Thr : Internal(u) => u = t)
 Next == \E t \in Thr : Sched(t) /\ Step(t) /\ lastT' = t /\ lastPc' = PcOf(t)
 Spec == Init /\ [][Next]_<<vars, ghosts>>
 FairSpec == Spec /\ \A t \in Thr : WF_<<vars, ghosts>>(Sched(t) /\ Step(t) /\ lastT' = t /\ lastPc' = PcOf(t))
@@ -110,7 +133,7 @@ View == vars
 AllDone == \A t \in Thr : pc[t] = "done"
 \* ---- the property formulas of C19 for this component
 ExactlyOneCompleter == cnt.compl <= 1 /\ (AllDone => cnt.compl = 1)
-StopHookAtMostOnceAndOnlyWhileRunning == cnt.nstop <= 1 /\ (cnt.nstop = 1 => cnt.nsb = 1)
+StopHookAtMostOnceAndOnlyWhileRunning == cnt.nstop <= 1 /\ (cnt.nstop = 1 => cnt.nsb = 1) /\ ~hookBad
 LateSafeCallbackIsNoOp == cnt.lateRan = 0 /\ cnt.bodycb <= 1
 NoTouchAfterWinner == bad = "ok"
 NoStuck == (bad = "ok" /\ ~AllDone) => ENABLED Next
